@@ -18,7 +18,25 @@ import (
 func rerep(t *rapid.T, s *hx.Spec, role string, entry bool) *hx.Spec {
 	c := s.Clone()
 	c.R, c.Drop, c.Ptr = "", 0, false
+	// a typed slice or typed map needs all its children in the canonical representation of one kind:
+	// left to the independent draws below that almost never happens, so decide it up front
+	homogeneous := false
+	if (c.K == "arr" || c.K == "map") && len(c.E) > 0 && role != "pstrarr" && role != "ordmap" && rapid.IntRange(0, 3).Draw(t, "homogeneous") == 0 {
+		for i, e := range c.E {
+			c.E[i] = e.Clone()
+			c.E[i].R, c.E[i].Drop, c.E[i].Ptr = "", 0, false
+		}
+		if k := c.E[0].K; k == "int" || k == "str" || (k == "float" && c.K == "arr") {
+			homogeneous = true
+			for _, e := range c.E {
+				homogeneous = homogeneous && e.K == k
+			}
+		}
+	}
 	for i, e := range c.E {
+		if homogeneous {
+			break
+		}
 		childRole := "elem"
 		if c.K == "map" {
 			childRole = "entry"
@@ -53,6 +71,9 @@ func rerep(t *rapid.T, s *hx.Spec, role string, entry bool) *hx.Spec {
 			}
 		}
 		c.R = rapid.SampledFrom(fit).Draw(t, "arrrep")
+		if homogeneous {
+			c.R = "typed"
+		}
 	case "map":
 		fit := []string{""}
 		for _, r := range c.MapReps() {
@@ -61,6 +82,9 @@ func rerep(t *rapid.T, s *hx.Spec, role string, entry bool) *hx.Spec {
 			}
 		}
 		c.R = rapid.SampledFrom(fit).Draw(t, "maprep")
+		if homogeneous {
+			c.R = "typed"
+		}
 	}
 	// Drop wrapping anywhere and at any depth
 	if c.R != "bytes" || role == "pstr-elem" {
